@@ -37,6 +37,9 @@ Proof. destruct p; fld. Qed.
 Lemma gen_B2_spec (p : bpiece) (x : K) : gen_B2 p x = Bspec 2 p x.
 Proof. destruct p; fld. Qed.
 
+Lemma gen_B3_spec (p : bpiece) (x : K) : gen_B3 p x = Bspec 3 p x.
+Proof. destruct p; fld. Qed.
+
 Lemma weights_are_basis (d : nat) (t : K) : (d <= 3)%nat -> gen_w d t = basis4 d t.
 Proof.
   intro H. destruct d as [|[|[|[|d]]]]; [| | | |lia]; unfold gen_w, basis4;
